@@ -255,6 +255,19 @@ inline std::vector<Real> gridvars(size_t n, const std::string &pfx = "g") {
   for (size_t k = 0; k + 1 < n; k++) Engine::get().assume(sym::lt(g[k], g[k + 1]));
   return g;
 }
+// grid points of a case: symbolic (strictly increasing) by default; with -DFIXED_GRID fixed irregular rationals - used by the
+// high-order variants, where symbolic points raised to high powers are out of reach while coefficients (and x) stay symbolic
+inline std::vector<Real> gridpoints(size_t n, const std::string &pfx = "g") {
+#ifdef FIXED_GRID
+  static const long long NUM[] = {-7, -1, 2, 9, 11, 7, 45, 13}, DEN[] = {3, 2, 5, 4, 2, 1, 4, 1};
+  std::vector<Real> g;
+  for (size_t k = 0; k < n; k++) g.push_back(Real::frac(NUM[k], DEN[k]));
+  (void)pfx;
+  return g;
+#else
+  return gridvars(n, pfx);
+#endif
+}
 template <size_t o>
 Spline<Real, o> mkspline(const Grid<Real> &g, size_t s, size_t e, const std::string &nm) {
   Support<Real> sup(g, s, e);
